@@ -81,6 +81,15 @@ struct InnerHolder {
     v: i64,
     probe: NestedProbe,
 }
+/// a validated type whose failing field is reached through the fuzzy path lookup (serde rename), in a document that also
+/// carries two ignored keys colliding with it on a looser pass: the lookup must not depend on hash iteration order
+#[derive(Deserialize, garde::Validate)]
+struct Decoyed {
+    #[garde(range(min = 1))]
+    #[serde(rename = "userId")]
+    #[allow(dead_code)]
+    user_id: i32,
+}
 struct Panicker;
 impl<'de> Deserialize<'de> for Panicker {
     fn deserialize<D: serde::de::Deserializer<'de>>(d: D) -> Result<Panicker, D::Error> {
@@ -96,7 +105,7 @@ struct PanicDoc {
     boom: RcAnchor<Panicker>,
 }
 
-pub const CALLS: [&str; 14] = ["ok-shared", "fail-in-anchored", "fail-missing-field", "budget", "panic", "nested", "nested-in-anchor", "iter-abandon", "serialize-shared", "unknown-alias", "weak-ok", "nested-arc", "nested-rcrec", "nested-arcrec"];
+pub const CALLS: [&str; 15] = ["ok-shared", "fail-in-anchored", "fail-missing-field", "budget", "panic", "nested", "nested-in-anchor", "iter-abandon", "serialize-shared", "unknown-alias", "weak-ok", "nested-arc", "nested-rcrec", "nested-arcrec", "valid-decoy"];
 
 /// executes one call and returns its fingerprint (value / sharing / error class / location)
 pub fn call(name: &str) -> String {
@@ -132,6 +141,10 @@ pub fn call(name: &str) -> String {
             "nested" => match serde_saphyr::from_str::<Outer>("first: &a {v: 1}\nprobe: hello\nsecond: *a\nweak: *a\n") {
                 Ok(o) => format!("ok probe={} shared={} weak={}", o.probe.0, Rc::ptr_eq(&o.first.0, &o.second.0), o.weak.0.upgrade().map(|w| Rc::ptr_eq(&w, &o.first.0)).unwrap_or(false)),
                 Err(e) => format!("err {} {:?}", classify(&e), err_loc(&e)),
+            },
+            "valid-decoy" => match serde_saphyr::from_str_valid::<Decoyed>("userid: 1\nuserId: 0\nUSERID: 2\n") {
+                Ok(_) => "ok?".into(),
+                Err(e) => format!("err {} {}", classify(&e), e),
             },
             "nested-arc" => match serde_saphyr::from_str::<OuterArc>("first: &a {v: 1}\nprobe: hello\nsecond: *a\n") {
                 Ok(o) => format!("ok probe={} shared={}", o.probe.0, Arc::ptr_eq(&o.first.0, &o.second.0)),
